@@ -1925,6 +1925,25 @@ def m_str_starts_with(interp, args, info):
         needle = chr(pat) if isinstance(pat, int) else pat.s
         which = info["def"].rsplit("::", 1)[1]
         return {"starts_with": s_.s.startswith, "ends_with": s_.s.endswith, "contains": s_.s.__contains__}[which](needle)
+    if isinstance(s_, StrV) and not isinstance(pat, (int, StrV)):
+        # a concrete text against a closure / [char] pattern: decided character by character
+        pv = interp.load(pat) if isinstance(pat, Ptr) else pat
+
+        def is_hit(ch):
+            if isinstance(pv, (ListV, tuple)):
+                return any(isinstance(x, int) and x == ord(ch) for x in (pv.items if isinstance(pv, ListV) else pv))
+            if isinstance(pv, (Clo, FnV)):
+                r = interp.call_value(pv, [ord(ch)])
+                if not isinstance(r, bool):
+                    raise Inconclusive("pattern predicate answered %r" % (r,), interp.where())
+                return r
+            raise Inconclusive("text pattern %r" % (pv,), interp.where())
+        which = info["def"].rsplit("::", 1)[1]
+        if which == "starts_with":
+            return bool(s_.s) and is_hit(s_.s[0])
+        if which == "ends_with":
+            return bool(s_.s) and is_hit(s_.s[-1])
+        return any(is_hit(ch) for ch in s_.s)
     if isinstance(s_, Tok) and s_.dom == "input" and hasattr(interp.policy, "stream_starts_with") \
             and info["def"].rsplit("::", 1)[1] == "starts_with":
         return interp.policy.stream_starts_with(interp, s_, pat)
@@ -1958,6 +1977,47 @@ def m_str_trim(interp, args, info):
             return StrV(s_.s.lstrip())
         if which == "trim_end":
             return StrV(s_.s.rstrip())
+        # trim_matches / trim_start_matches / trim_end_matches on a concrete text: char, &str, [char] or closure pattern
+        pat = args[1]
+        if isinstance(pat, Ptr):
+            pat = interp.load(pat)
+
+        def hit(text, at_start):
+            """length of a match at the start / end of text, 0 if none"""
+            if isinstance(pat, StrV):
+                if pat.s and (text.startswith(pat.s) if at_start else text.endswith(pat.s)):
+                    return len(pat.s)
+                return 0
+            if not text:
+                return 0
+            ch = text[0] if at_start else text[-1]
+            if isinstance(pat, bool):
+                raise Inconclusive("trim pattern %r" % (pat,), interp.where())
+            if isinstance(pat, int):
+                return 1 if ord(ch) == pat else 0
+            if isinstance(pat, (ListV, tuple)):
+                items = pat.items if isinstance(pat, ListV) else pat
+                return 1 if any(isinstance(x, int) and ord(ch) == x for x in items) else 0
+            if isinstance(pat, (Clo, FnV)):
+                r = interp.call_value(pat, [ord(ch)])
+                if not isinstance(r, bool):
+                    raise Inconclusive("trim predicate answered %r" % (r,), interp.where())
+                return 1 if r else 0
+            raise Inconclusive("trim pattern %r" % (pat,), interp.where())
+        text = s_.s
+        if which in ("trim_matches", "trim_start_matches"):
+            while True:
+                n = hit(text, True)
+                if not n:
+                    break
+                text = text[n:]
+        if which in ("trim_matches", "trim_end_matches"):
+            while True:
+                n = hit(text, False)
+                if not n:
+                    break
+                text = text[:-n]
+        return StrV(text)
     raise Inconclusive("trim on %r" % (s_,), interp.where())
 
 
@@ -2845,3 +2905,70 @@ def m_char_from_u32(interp, args, info):
 @_model_missing("std::char::methods::<impl char>::len_utf8", "core::char::methods::<impl char>::len_utf8")
 def m_char_len_utf8(interp, args, info):
     return len(chr(_need_int(interp, args[0], "len_utf8")).encode("utf-8"))
+
+
+@_model_missing("core::str::traits::<impl std::ops::Index<I> for str>::index", "<std::string::String as std::ops::Index<I>>::index")
+def m_str_index(interp, args, info):
+    s_ = interp.strip(args[0])
+    if not isinstance(s_, StrV):
+        raise Inconclusive("str index on %r" % (s_,), interp.where())
+    b = s_.s.encode("utf-8")
+    lo, hi = _range_of(interp, args[1], len(b))
+
+    def boundary(i):
+        return i == 0 or i == len(b) or (b[i] & 0xC0) != 0x80
+    if not (boundary(lo) and boundary(hi)):
+        raise Panic("str_index", interp.where(), "byte index is not a char boundary")
+    return Ptr(Cell(StrV(b[lo:hi].decode("utf-8"))))
+
+
+@_model_missing("std::char::convert::<impl std::convert::From<u8> for char>::from", "core::char::convert::<impl std::convert::From<u8> for char>::from")
+def m_char_from_u8(interp, args, info):
+    return _need_int(interp, args[0], "char::from(u8)")
+
+
+@_model_missing("std::str::from_utf8", "core::str::from_utf8", "core::str::converts::from_utf8")
+def m_str_from_utf8(interp, args, info):
+    v = interp.strip(args[0])
+    if isinstance(v, ListV) and all(isinstance(x, int) and not isinstance(x, bool) for x in v.items):
+        try:
+            return ok(Ptr(Cell(StrV(bytes(v.items).decode("utf-8")))))
+        except UnicodeDecodeError:
+            return err(Tok("O", "utf8_error"))
+    raise Inconclusive("from_utf8 on %r" % (v,), interp.where())
+
+
+def _ascii_case(which):
+    def f(interp, args, info):
+        v = args[0]
+        if isinstance(v, Ptr):
+            v = interp.load(v)
+        v = _need_int(interp, v, which)
+        if which == "lower":
+            return v + 32 if 0x41 <= v <= 0x5A else v
+        return v - 32 if 0x61 <= v <= 0x7A else v
+    return f
+
+
+for _pfx in ("core", "std"):
+    for _ty in ("::char::methods::<impl char>::", "::num::<impl u8>::"):
+        MODELS.setdefault(_pfx + _ty + "to_ascii_lowercase", _ascii_case("lower"))
+        MODELS.setdefault(_pfx + _ty + "to_ascii_uppercase", _ascii_case("upper"))
+
+
+@_model_missing("core::num::<impl u8>::eq_ignore_ascii_case", "core::char::methods::<impl char>::eq_ignore_ascii_case",
+                "std::char::methods::<impl char>::eq_ignore_ascii_case")
+def m_eq_ignore_ascii_case(interp, args, info):
+    a = _need_int(interp, interp.load(args[0]) if isinstance(args[0], Ptr) else args[0], "eq_ignore_ascii_case")
+    b = _need_int(interp, interp.load(args[1]) if isinstance(args[1], Ptr) else args[1], "eq_ignore_ascii_case")
+    lo = lambda v: v + 32 if 0x41 <= v <= 0x5A else v
+    return lo(a) == lo(b)
+
+
+@_model_missing("core::str::<impl str>::eq_ignore_ascii_case")
+def m_str_eq_ignore_ascii_case(interp, args, info):
+    a, b = interp.strip(args[0]), interp.strip(args[1])
+    if isinstance(a, StrV) and isinstance(b, StrV):
+        return a.s.lower() == b.s.lower() if a.s.isascii() and b.s.isascii() else \
+            "".join(c.lower() if c.isascii() else c for c in a.s) == "".join(c.lower() if c.isascii() else c for c in b.s)
+    raise Inconclusive("eq_ignore_ascii_case on %r %r" % (a, b), interp.where())
